@@ -121,7 +121,8 @@ def run(ctx):
             if fn.endswith(".tla") or fn.endswith(".cfg"):
                 import shutil
                 shutil.copy(os.path.join(src, fn), os.path.join(wd, fn))
-    plans = [("sync", ["sync-scenarios", "8" if ctx.quick() else "40"]), ("hist", ["8" if ctx.quick() else "40", "70"])]
+    plans = [("sync", ["sync-scenarios", "8" if ctx.quick() else "40"]), ("hist", ["8" if ctx.quick() else "40", "70"]),
+             ("shards", ["shard-scenarios", "6" if ctx.quick() else "30"])]
     qstats = {"suggest": 0, "client_steps": 0, "syncdone": 0, "queue_states": 0}
     for i, (name, args) in enumerate(plans):
         path = ctx.path("trace_%s.ndjson" % name)
